@@ -298,3 +298,26 @@ func libRelName(n Name) string {
 	}
 	return strings.TrimSuffix(s, ".")
 }
+
+// libSubnetNoise (under a Spelling): a client-subnet address as a program holds it - the whole
+// address, host bits included; the packer applies the source netmask (RFC 7871 section 6).
+func libSubnetNoise(ip []byte, mask int) {
+	if spellSeed == 0 || spellSeed == SpellRaw8 {
+		return
+	}
+	spellCtr++
+	h := mix(spellSeed ^ mix(spellCtr))
+	if h&1 == 0 {
+		return
+	}
+	off := 0
+	if len(ip) == 16 && mask <= 32 && ip[10] == 0xff && ip[11] == 0xff {
+		off = 96 // IPv4 in 16-octet form
+	}
+	for bit := mask + off; bit < len(ip)*8; bit++ {
+		h = mix(h)
+		if h&1 == 1 {
+			ip[bit/8] |= 0x80 >> uint(bit%8)
+		}
+	}
+}
